@@ -72,6 +72,21 @@ def main():
     print(json.dumps({k: meta[k] for k in ('property', 'variant', 'confirmed', 'repo_tests_with_patch', 'caught_by')}, indent=None))
     for c, v in meta['checks'].items():
         print('  ', c, 'exit', v['exit'], v['violation_keys'][:3])
+    # a kept change which a repair has neutralised keeps its note (and its "no longer breaking" status) across re-evaluations
+    old_meta = os.path.join(dst, 'meta.json')
+    if os.path.exists(old_meta):
+        try:
+            om = json.load(open(old_meta))
+            if om.get('status_note'):
+                meta['status_note'] = om['status_note']
+                if om.get('confirmed') is False and not meta['caught_by']:
+                    meta['confirmed_by_demo'] = meta['confirmed']
+                    meta['confirmed'] = False
+                    om.update(checks=meta.get('checks', {}), caught_by=meta['caught_by'], confirmed_by_demo=meta['confirmed_by_demo'])
+                    if not a.no_save:
+                        json.dump(om, open(old_meta, 'w'), indent=1)
+        except ValueError:
+            pass
     if not a.no_save and meta['confirmed']:
         os.makedirs(dst, exist_ok=True)
         for f in ('patch.diff', 'demo.py', 'notes.md'):
